@@ -3,14 +3,17 @@ package main
 import (
 	"cuelabs.dev/go/oci/ociregistry/ocimem"
 	ocispec "github.com/opencontainers/image-spec/specs-go/v1"
+	"bytes"
 	"context"
 	"encoding/base64"
 	"encoding/json"
 	"errors"
 	"fmt"
+	"io"
 	"sort"
 	"strconv"
 	"strings"
+	"sync"
 
 	"cuelabs.dev/go/oci/ociregistry"
 	"cuelabs.dev/go/oci/ociregistry/ociref"
@@ -27,6 +30,8 @@ import (
 //	uni alt mem <op…>         a read through a unifier with the other policy
 //	uni snap                  are the two members observably equal?
 //	uni merge <k> <ev0> <ev1> unifier.Tags over two scripted members, consumer declining call k
+//	uni fault <method> <member 0|1> <n> <code>   impl-only (the model answers `skip`): a fixed sequence of writes through a
+//	                          unifier over two equal ocimem members, the n-th call of <method> on ONE member failing with <code>
 //
 // Composite upload IDs are written `&id0&id1` in lines (the real one is
 // base64url(JSON [id0,id1])); fresh ones are `@n`.
@@ -338,6 +343,461 @@ func c15Diverge(failSecond bool, nth int) string {
 	return "diverge ok"
 }
 
+// ---- fault injection into one member (`uni fault …`) ----
+//
+// The two members of every other family are well-behaved ocimem registries, so a member call that fails ON ITS OWN — not
+// because of what the member holds — never happens there. failNth makes the n-th call of one method on one member fail
+// with a coded error (Write / Commit / Close / Cancel are the methods of the writers the member hands out), and records
+// every mutating call the member receives, with its arguments and its outcome.
+
+type c15MemberCall struct {
+	method  string
+	args    string // canonical, without the content of a PushBlob
+	content string // what the member read of a PushBlob's content
+	res     string // "ok" or "err:<class>"; "" while the call is running
+}
+
+type c15FaultLog struct {
+	mu    sync.Mutex
+	calls []c15MemberCall
+	seen  int            // calls of the faulted method so far
+	ids   map[string]string // upload IDs this member issued, by canonical name
+}
+
+type failNth struct {
+	ociregistry.Interface
+	method string // "" never fails
+	n      int
+	code   string
+	log    *c15FaultLog
+}
+
+func c15Res(err error) string {
+	if err != nil {
+		return "err:" + errClass(err)
+	}
+	return "ok"
+}
+
+// begin records the call and says whether it is the one that fails.
+func (m failNth) begin(method, args string) (idx int, fault error) {
+	l := m.log
+	l.mu.Lock()
+	defer l.mu.Unlock()
+	l.calls = append(l.calls, c15MemberCall{method: method, args: args})
+	if method == m.method {
+		l.seen++
+		if l.seen == m.n {
+			fault = c15Err(m.code)
+		}
+	}
+	return len(l.calls) - 1, fault
+}
+
+func (m failNth) end(idx int, err error) {
+	m.log.mu.Lock()
+	m.log.calls[idx].res = c15Res(err)
+	m.log.mu.Unlock()
+}
+
+// uploadName is the canonical name of an upload ID of this member (the ocimem IDs are random): the name it was given when
+// the member issued it, which is the ordinal of the opening call among the calls of that kind the member has RECEIVED - the
+// same on both members when every opening call reaches both.
+func (m failNth) uploadName(id, issue string) string {
+	l := m.log
+	l.mu.Lock()
+	defer l.mu.Unlock()
+	name, ok := l.ids[id]
+	if !ok {
+		if issue == "" {
+			return "foreign:" + tok(id)
+		}
+		name = issue
+		l.ids[id] = name
+	}
+	return name
+}
+
+// received counts the calls of a method the member has received so far.
+func (m failNth) received(method string) int {
+	m.log.mu.Lock()
+	defer m.log.mu.Unlock()
+	k := 0
+	for _, c := range m.log.calls {
+		if c.method == method {
+			k++
+		}
+	}
+	return k
+}
+
+func (m failNth) PushBlob(ctx context.Context, repo string, desc ociregistry.Descriptor, r io.Reader) (ociregistry.Descriptor, error) {
+	idx, fault := m.begin("PushBlob", tok(repo)+","+strings.ReplaceAll(showDesc(desc), " ", ","))
+	if fault != nil {
+		m.end(idx, fault)
+		return ociregistry.Descriptor{}, fault
+	}
+	var got bytes.Buffer
+	d, err := m.Interface.PushBlob(ctx, repo, desc, io.TeeReader(r, &got))
+	m.log.mu.Lock()
+	m.log.calls[idx].content = got.String()
+	m.log.mu.Unlock()
+	m.end(idx, err)
+	return d, err
+}
+
+func (m failNth) PushManifest(ctx context.Context, repo, tag string, contents []byte, mediaType string) (ociregistry.Descriptor, error) {
+	idx, fault := m.begin("PushManifest", tok(repo)+","+tok(tag)+","+tok(string(contents))+","+tok(mediaType))
+	if fault != nil {
+		m.end(idx, fault)
+		return ociregistry.Descriptor{}, fault
+	}
+	d, err := m.Interface.PushManifest(ctx, repo, tag, contents, mediaType)
+	m.end(idx, err)
+	return d, err
+}
+
+func (m failNth) MountBlob(ctx context.Context, fromRepo, toRepo string, dig ociregistry.Digest) (ociregistry.Descriptor, error) {
+	idx, fault := m.begin("MountBlob", tok(fromRepo)+","+tok(toRepo)+","+tok(string(dig)))
+	if fault != nil {
+		m.end(idx, fault)
+		return ociregistry.Descriptor{}, fault
+	}
+	d, err := m.Interface.MountBlob(ctx, fromRepo, toRepo, dig)
+	m.end(idx, err)
+	return d, err
+}
+
+func (m failNth) del(method, repo, what string, f func() error) error {
+	idx, fault := m.begin(method, tok(repo)+","+tok(what))
+	if fault != nil {
+		m.end(idx, fault)
+		return fault
+	}
+	err := f()
+	m.end(idx, err)
+	return err
+}
+
+func (m failNth) DeleteBlob(ctx context.Context, repo string, dig ociregistry.Digest) error {
+	return m.del("DeleteBlob", repo, string(dig), func() error { return m.Interface.DeleteBlob(ctx, repo, dig) })
+}
+func (m failNth) DeleteManifest(ctx context.Context, repo string, dig ociregistry.Digest) error {
+	return m.del("DeleteManifest", repo, string(dig), func() error { return m.Interface.DeleteManifest(ctx, repo, dig) })
+}
+func (m failNth) DeleteTag(ctx context.Context, repo string, name string) error {
+	return m.del("DeleteTag", repo, name, func() error { return m.Interface.DeleteTag(ctx, repo, name) })
+}
+
+func (m failNth) PushBlobChunked(ctx context.Context, repo string, chunkSize int) (ociregistry.BlobWriter, error) {
+	idx, fault := m.begin("PushBlobChunked", tok(repo)+","+strconv.Itoa(chunkSize))
+	if fault != nil {
+		m.end(idx, fault)
+		return nil, fault
+	}
+	w, err := m.Interface.PushBlobChunked(ctx, repo, chunkSize)
+	m.end(idx, err)
+	if err != nil {
+		return nil, err
+	}
+	return failNthWriter{w, m, m.uploadName(w.ID(), "upload#"+strconv.Itoa(m.received("PushBlobChunked")))}, nil
+}
+
+func (m failNth) PushBlobChunkedResume(ctx context.Context, repo, id string, offset int64, chunkSize int) (ociregistry.BlobWriter, error) {
+	// each member is given ITS half of the composite ID: the halves are named, not printed
+	idx, fault := m.begin("PushBlobChunkedResume", tok(repo)+","+m.uploadName(id, "")+","+strconv.FormatInt(offset, 10)+","+strconv.Itoa(chunkSize))
+	if fault != nil {
+		m.end(idx, fault)
+		return nil, fault
+	}
+	w, err := m.Interface.PushBlobChunkedResume(ctx, repo, id, offset, chunkSize)
+	m.end(idx, err)
+	if err != nil {
+		return nil, err
+	}
+	return failNthWriter{w, m, m.uploadName(w.ID(), "resumed#"+strconv.Itoa(m.received("PushBlobChunkedResume")))}, nil
+}
+
+// failNthWriter is a writer handed out by a failNth member.
+type failNthWriter struct {
+	ociregistry.BlobWriter
+	m    failNth
+	name string
+}
+
+func (w failNthWriter) Write(p []byte) (int, error) {
+	idx, fault := w.m.begin("Write", w.name+","+tok(string(p)))
+	if fault != nil {
+		w.m.end(idx, fault)
+		return 0, fault
+	}
+	n, err := w.BlobWriter.Write(p)
+	w.m.end(idx, err)
+	return n, err
+}
+
+func (w failNthWriter) Commit(dig ociregistry.Digest) (ociregistry.Descriptor, error) {
+	idx, fault := w.m.begin("Commit", w.name+","+tok(string(dig)))
+	if fault != nil {
+		w.m.end(idx, fault)
+		return ociregistry.Descriptor{}, fault
+	}
+	d, err := w.BlobWriter.Commit(dig)
+	w.m.end(idx, err)
+	return d, err
+}
+
+func (w failNthWriter) Close() error {
+	idx, fault := w.m.begin("Close", w.name)
+	if fault != nil {
+		w.m.end(idx, fault)
+		return fault
+	}
+	err := w.BlobWriter.Close()
+	w.m.end(idx, err)
+	return err
+}
+
+func (w failNthWriter) Cancel() error {
+	idx, fault := w.m.begin("Cancel", w.name)
+	if fault != nil {
+		w.m.end(idx, fault)
+		return fault
+	}
+	err := w.BlobWriter.Cancel()
+	w.m.end(idx, err)
+	return err
+}
+
+var c15FaultMethods = []string{"PushBlob", "PushManifest", "MountBlob", "DeleteBlob", "DeleteManifest", "DeleteTag",
+	"PushBlobChunked", "PushBlobChunkedResume", "Write", "Commit", "Close", "Cancel"}
+var c15FaultCodes = []string{"NAME_UNKNOWN", "DENIED"}
+
+// c15Fault: `uni fault <method> <member> <n> <code>`. Two ocimem members holding the same; a fixed sequence of calls through
+// the unifier that makes at least two calls of <method>; the n-th call of <method> on member <member> fails with <code>.
+// The output is one record per call made on the unifier:
+//
+//	<Method> u=<ok|err:CLS> | <m0 calls> | <m1 calls>
+//
+// where the member calls are those of the same method the member received while the unifier's call ran, each
+// `<args>=<ok|err:CLS>[+<content>]`.
+func c15Fault(method string, member, n int, code string) string {
+	ctx := context.Background()
+	mem := [2]*ocimem.Registry{ocimem.New(), ocimem.New()}
+	blobs := [][]byte{[]byte("fault-blob-0"), []byte("fault-blob-1")}
+	manifests := [][]byte{[]byte("fault manifest 0"), []byte("fault manifest 1")}
+	dg := func(b []byte) ociregistry.Digest { return ociregistry.Digest(sha256Digest(b)) }
+	for _, m := range mem {
+		for _, b := range blobs {
+			pushBlobOK(m, "a", b)
+		}
+		for i, mf := range manifests {
+			if _, err := m.PushManifest(ctx, "a", "t"+strconv.Itoa(i), mf, mtOpaque); err != nil {
+				return "fault setup failed: " + err.Error()
+			}
+		}
+	}
+	var w [2]failNth
+	for i := range w {
+		w[i] = failNth{Interface: mem[i], log: &c15FaultLog{ids: map[string]string{}}}
+	}
+	w[member].method, w[member].n, w[member].code = method, n, code
+	u := ociunify.New(w[0], w[1], nil)
+
+	var recs []string
+	// call runs one call on the unifier and records it with the member calls of the same method it caused.
+	call := func(name string, f func() error) {
+		var from [2]int
+		for i := range w {
+			w[i].log.mu.Lock()
+			from[i] = len(w[i].log.calls)
+			w[i].log.mu.Unlock()
+		}
+		rec := name + " u=" + c15Res(f())
+		for i := range w {
+			w[i].log.mu.Lock()
+			var cs []string
+			for _, c := range w[i].log.calls[from[i]:] {
+				if c.method != name {
+					continue // e.g. the Close of a writer whose sibling could not be opened
+				}
+				x := c.args + "=" + c.res
+				if c.method == "PushBlob" && c.res == "ok" {
+					x += "+" + tok(c.content)
+				}
+				cs = append(cs, x)
+			}
+			w[i].log.mu.Unlock()
+			rec += " | " + strings.Join(cs, " ")
+		}
+		recs = append(recs, rec)
+	}
+	// open makes a writer through the unifier; nil if that failed (or, wrongly, gave nothing without an error).
+	open := func(repo string) ociregistry.BlobWriter {
+		var bw ociregistry.BlobWriter
+		call("PushBlobChunked", func() error {
+			x, err := u.PushBlobChunked(ctx, repo, 0)
+			bw = x
+			return err
+		})
+		return bw
+	}
+	write := func(bw ociregistry.BlobWriter, p string) {
+		call("Write", func() error { _, err := bw.Write([]byte(p)); return err })
+	}
+	commit := func(bw ociregistry.BlobWriter, content string) {
+		call("Commit", func() error { _, err := bw.Commit(dg([]byte(content))); return err })
+	}
+	closeW := func(bw ociregistry.BlobWriter) { call("Close", bw.Close) }
+
+	switch method {
+	case "PushBlob":
+		for _, c := range []string{"fault-new-0", "fault-new-1"} {
+			call("PushBlob", func() error {
+				_, err := u.PushBlob(ctx, "a", ociregistry.Descriptor{MediaType: "application/octet-stream", Digest: dg([]byte(c)), Size: int64(len(c))}, strings.NewReader(c))
+				return err
+			})
+		}
+	case "PushManifest":
+		for i, c := range []string{"fault new manifest 0", "fault new manifest 1"} {
+			call("PushManifest", func() error {
+				_, err := u.PushManifest(ctx, "a", "n"+strconv.Itoa(i), []byte(c), mtOpaque)
+				return err
+			})
+		}
+	case "MountBlob":
+		for i, b := range blobs {
+			call("MountBlob", func() error {
+				_, err := u.MountBlob(ctx, "a", "to"+strconv.Itoa(i), dg(b))
+				return err
+			})
+		}
+	case "DeleteBlob":
+		for _, b := range blobs {
+			call("DeleteBlob", func() error { return u.DeleteBlob(ctx, "a", dg(b)) })
+		}
+	case "DeleteManifest":
+		for _, mf := range manifests {
+			call("DeleteManifest", func() error { return u.DeleteManifest(ctx, "a", dg(mf)) })
+		}
+	case "DeleteTag":
+		for i := range manifests {
+			call("DeleteTag", func() error { return u.DeleteTag(ctx, "a", "t"+strconv.Itoa(i)) })
+		}
+	case "PushBlobChunked":
+		for _, repo := range []string{"a", "b"} {
+			if bw := open(repo); bw != nil {
+				closeW(bw)
+			}
+		}
+	case "PushBlobChunkedResume":
+		bw := open("a")
+		if bw == nil {
+			break
+		}
+		write(bw, "hel")
+		id := bw.ID()
+		closeW(bw)
+		for k := 0; k < 2; k++ {
+			var bw2 ociregistry.BlobWriter
+			call("PushBlobChunkedResume", func() error {
+				x, err := u.PushBlobChunkedResume(ctx, "a", id, 3, 0)
+				bw2 = x
+				return err
+			})
+			if bw2 != nil {
+				closeW(bw2)
+			}
+		}
+	case "Write":
+		if bw := open("a"); bw != nil {
+			write(bw, "hel")
+			write(bw, "lo")
+			commit(bw, "hello")
+			closeW(bw)
+		}
+	case "Commit", "Close", "Cancel":
+		for _, c := range []string{"chunked-0", "chunked-1"} {
+			bw := open("a")
+			if bw == nil {
+				continue
+			}
+			write(bw, c)
+			switch method {
+			case "Commit":
+				commit(bw, c)
+				closeW(bw)
+			case "Cancel":
+				call("Cancel", bw.Cancel)
+				closeW(bw)
+			default:
+				closeW(bw)
+			}
+		}
+	default:
+		return "bad-op"
+	}
+	return "fault " + strings.Join(recs, " ; ")
+}
+
+// c15FaultOracle judges the records of a `uni fault` line. Both clauses are about ONE call on the unifier and the two
+// member calls it caused; nothing is demanded of the members' contents afterwards (the unifier does not roll back).
+func c15FaultOracle(line []string, got string, fail func(class, oracle, exp, obs string)) {
+	if !strings.HasPrefix(got, "fault ") {
+		fail("c15-fault-scenario", "fault_scenario", "fault <records>", got)
+		return
+	}
+	faulted := false
+	for _, rec := range strings.Split(strings.TrimPrefix(got, "fault "), " ; ") {
+		parts := strings.Split(rec, " | ")
+		head := strings.Split(parts[0], " ")
+		if len(parts) != 3 || len(head) != 2 || !strings.HasPrefix(head[1], "u=") {
+			fail("c15-fault-scenario", "fault_scenario", "<Method> u=<result> | <m0 calls> | <m1 calls>", rec)
+			continue
+		}
+		name, uok := head[0], head[1] == "u=ok"
+		var calls [2][]string
+		for i := 0; i < 2; i++ {
+			if parts[i+1] != "" {
+				calls[i] = strings.Split(parts[i+1], " ")
+			}
+		}
+		// write_replicated: each member received the call, once, with the same arguments
+		if len(calls[0]) != 1 || len(calls[1]) != 1 {
+			fail("c15-fault-not-replicated:"+name, "write_replicated", "one "+name+" call on each member", rec)
+			continue
+		}
+		var args, res, content [2]string
+		for i := 0; i < 2; i++ {
+			c := calls[i][0]
+			if k := strings.LastIndex(c, "+"); k >= 0 {
+				c, content[i] = c[:k], c[k:]
+			}
+			k := strings.LastIndex(c, "=")
+			args[i], res[i] = c[:k], c[k+1:]
+		}
+		if args[0] != args[1] || (content[0] != "" && content[1] != "" && content[0] != content[1]) {
+			fail("c15-fault-args-differ:"+name, "write_replicated", "both members called with the same arguments", rec)
+		}
+		// success_only_if_both
+		both := res[0] == "ok" && res[1] == "ok"
+		if uok != both {
+			exp := "u=ok (both member calls succeeded)"
+			if !both {
+				exp = "u=err:… (a member call failed)"
+			}
+			fail("c15-fault-success-not-iff-both:"+name, "success_only_if_both", exp, rec)
+		}
+		if name == line[2] && (res[0] != "ok" || res[1] != "ok") {
+			faulted = true
+		}
+	}
+	if !faulted {
+		// the directed sequence did not reach the call that was to fail: the line tests nothing
+		fail("c15-fault-scenario", "fault_scenario", "a "+line[2]+" call that failed on a member", got)
+	}
+}
+
 func (*c15) Impl(c Case) []string {
 	out := make([]string, len(c.Lines))
 	var s *c15State
@@ -370,6 +830,11 @@ func (*c15) Impl(c Case) []string {
 					return "bad-op"
 				}
 				return c15Diverge(t[2] == "1", atoi(t[3]))
+			case "fault":
+				if len(t) != 6 || (t[3] != "0" && t[3] != "1") {
+					return "bad-op"
+				}
+				return c15Fault(t[2], atoi(t[3]), atoi(t[4]), t[5])
 			case "snap":
 				if len(t) != 2 {
 					return "bad-op"
@@ -909,6 +1374,16 @@ func (*c15) Gen(rng *RNG, tier string) []Case {
 			cases = append(cases, Case{Tag: "chunked:diverge", Lines: []string{fmt.Sprintf("uni diverge %s %d", which, nth)}})
 		}
 	}
+	// 2d. one member call fails on its own: every mutating method × member × the first or second call × two error codes
+	for _, m := range c15FaultMethods {
+		for member := 0; member < 2; member++ {
+			for n := 1; n <= 2; n++ {
+				for _, code := range c15FaultCodes {
+					cases = append(cases, Case{Tag: "fault:" + m, Lines: []string{fmt.Sprintf("uni fault %s %d %d %s", m, member, n, code)}})
+				}
+			}
+		}
+	}
 	nHist, nRel, nMerge, histLen, nReads := 220, 120, 400, 40, 30
 	if tier == "thorough" {
 		nHist, nRel, nMerge, histLen, nReads = 3000, 1500, 20000, 150, 80
@@ -1036,6 +1511,12 @@ func (*c15) Oracle(c Case, impl []string) []Failure {
 		}
 		got := impl[i]
 		t := strings.Split(l, " ")
+		if len(t) == 6 && t[1] == "fault" && got != "bad-op" && got != "panic" {
+			c15FaultOracle(t, got, func(class, oracle, exp, obs string) {
+				fs = append(fs, Failure{Class: class, Oracle: oracle, Index: i, Expected: exp, Observed: obs})
+			})
+			continue
+		}
 		fail := func(class, oracle, exp string) {
 			fs = append(fs, Failure{Class: class, Oracle: oracle, Index: i, Expected: exp, Observed: got})
 		}
@@ -1275,6 +1756,10 @@ func (*c15) NonTrivial(c Case, impl []string) (bool, string) {
 	b := c.Tag
 	if b == "" {
 		b = "replay"
+	}
+	if len(c.Lines) == 1 && strings.HasPrefix(c.Lines[0], "uni fault ") && len(impl) == 1 {
+		// a call that failed on one member and one that succeeded on both
+		return strings.Contains(impl[0], "=err:") && strings.Contains(impl[0], "u=ok"), b
 	}
 	return okU >= 2 && errU >= 1, b
 }
